@@ -80,7 +80,7 @@ fn plan_for(property: &str, tier: &str, seed: u64, workers: usize) -> Result<Pla
         }),
         "C01" => {
             let mut batches = vec![native("native", runs(1_000_000, 20_000_000))];
-            let m = miri_runs.unwrap_or(if thorough { 2_080 } else { 104 });
+            let m = miri_runs.unwrap_or(if thorough { 6_240 } else { 208 });
             if m > 0 {
                 batches.push(miri("inspect", m, 16));
             }
@@ -177,6 +177,7 @@ pub fn expected_probes(property: &str) -> Vec<&'static str> {
             "fault_fired.eintr",
             "c16.short_slice",
             "c16.limited.len_errors",
+            "c16.limited.continued_after_one_shot_error",
             "c16.fault_in_part1.tcp",
             "c16.fault_in_part1.ipv4",
             "c16.fault_in_part1.ip_auth",
